@@ -153,6 +153,12 @@ impl SimpleMessageRelay {
     }
 
     pub fn send(&self, msg: Vec<u8>) {
+        // A frame without a payload is not a publication. Ignore it
+        // instead of panicking while holding the lock.
+        if msg.len() <= MESSAGE_HEADER_SIZE {
+            return;
+        }
+
         self.inner.lock().unwrap().send(msg);
     }
 }
